@@ -59,6 +59,15 @@ def run(rep, tier, build, replay=None):
         if len(uniq) > 1:
             sets.append(uniq)                     # several lexicons in one export (identifiers are unique)
         cases.append({'resources': u, 'style_seed': rng.randrange(1 << 30), 'export_sets': sets, 'versions': versions})
+    # corpus (always first): the witness of known finding F18 — a WN-LMF 1.0 lexicon with entry-level frames
+    f18 = {'id': 'ff', 'label': 'ff', 'language': 'en', 'email': 'e', 'license': 'l', 'version': '1', 'meta': None,
+           'entries': [{'id': 'ff-e1', 'meta': None, 'lemma': {'writtenForm': 'give', 'partOfSpeech': 'v'},
+                        'senses': [{'id': 'ff-e1-s1', 'synset': 'ff-s1', 'meta': None}, {'id': 'ff-e1-s2', 'synset': 'ff-s1', 'meta': None}],
+                        'frames': [{'subcategorizationFrame': 'Somebody ----s something', 'senses': ['ff-e1-s1']},
+                                   {'subcategorizationFrame': 'Somebody ----s'}]}],
+           'synsets': [{'id': 'ff-s1', 'ili': '', 'partOfSpeech': 'v', 'meta': None}]}
+    cases.insert(0, {'resources': [('ff:1', {'lmf_version': '1.0', 'lexicons': [f18]})], 'style_seed': 7,
+                     'export_sets': [['ff:1']], 'versions': versions})
     nsh = min(common.NPROC, len(cases))
     outs = common.run_impl_parallel('run_C03.py', [{'cases': cases[i::nsh]} for i in range(nsh)])
     evals = 0
